@@ -71,6 +71,35 @@ T = {
  "C19-r2m2": ("customfuncs/datetime.go EpochToDateTimeRFC3339: MILLISECOND split simplified to n/1000 (truncates toward zero)", "MILLISECOND unit, an instant before 1970 with a non-zero millisecond part"),
  "C20-r2m1": ("javascript.go: result check rewritten with math.IsInf(f, 1)", "a script whose result is exactly negative infinity (-1/0, Math.log(0))"),
  "C20-r2m2": ("javascript.go: cleanup skips _node", "a javascript_with_context call followed, on the same pooled VM, by a call without a node whose script mentions _node"),
+ # round 3 (third independent set; prompts listed all earlier ideas)
+ "C01-r3m1": ("ingester.go: undoes json.Marshal's HTML-safe escapes (\\u003c ...) with bytes.ReplaceAll", "a value that itself contains the six characters backslash-u003c / u003e / u0026"),
+ "C01-r3m2": ("transform.go RawRecord hands the record over and forgets it", "two RawRecord calls in a row after one successful Read"),
+ "C02-r3m1": ("ingester.go keeps ONE parse context (result cache) for all records", "XML/JSON, a declaration anchored on a node that outlives the record (xpath '..') reading record data, >= 2 records"),
+ "C02-r3m2": ("value.go normalizeAndSaveValue trims a no_trim value that is all white space", "no_trim with a value of nothing but white space"),
+ "C03-r3m1": ("edi reader2.go endsWithSegDelim loop guard i > 0", "release_character of 2+ bytes and a segment shorter than it"),
+ "C03-r3m2": ("csv2 reader.go linesToNode indexes buffered lines directly by line_index", "column with line_index k and a record instance of fewer than k lines"),
+ "C04-r3m1": ("idr/query.go matchesNode: the LAST selected node decides (rebased onto 108730b)", "filtered target that can match at several depths, candidate containing a nested matching node"),
+ "C04-r3m2": ("idr/xmlreader.go keeps a filter starting with [@ in the candidate xpath and drops the final check", "attribute-first filter that also looks at children (and / or / second filter)"),
+ "C05-r3m1": ("edi/reader.go segDone: filtered-out instance returns before the max check", "target xpath filter, finite max, exactly the max-th instance filtered out, another same-named segment next"),
+ "C05-r3m2": ("fixedlength2 reader.go footer search reads one new line per line examined", "header/footer envelope (>= 2 lines) first in a group, fewer lines after its footer than it has after its header"),
+ "C06-r3m1": ("fixedlength2 linesToNode skips line matching for one-line envelopes", "column with line_pattern / line_index and an envelope instance of exactly one line it does not select"),
+ "C06-r3m2": ("csv2 popFrontLinesBuf takes the shift through a pointer into the slice it shifts", "a pop that leaves more lines buffered than it removes (failed look-ahead at EOF, then one-line records)"),
+ "C09-r3m1": ("idr/jsonreader.go caps the tracked newlines at 64", "JSON, > 64 newlines inside one decoder refill, big chunks, a failing record (line number in the error)"),
+ "C09-r3m2": ("edi reader2.go one-pass CR/LF filter returning (0, nil) for CR/LF-only chunks", "ignore_crlf, >= 101 consecutive CR/LF bytes, small-chunk delivery"),
+ "C10-r3m1": ("javascript.go argument cleanup only when the script succeeds", "a record whose script throws while holding arguments, then a script reading that name undeclared"),
+ "C10-r3m2": ("idr/xmlreader.go candidate fast path: same parent and same local name as the previous candidate", "same-local-name siblings under different namespace prefixes, unfiltered target xpath"),
+ "C12-r3m1": ("idr/node.go recycle(): Put before reset", "a concurrent release overlapping a concurrent acquisition"),
+ "C12-r3m2": ("old fixed-length Read no longer clears r.target after the auto-release", "caller skips Release, next Read ends in EOF, then Read once more"),
+ "C13-r3m1": ("javascript.go node-JSON cache stamp covers direct children only", "javascript_with_context anchored two or more levels above the record, >= 2 records"),
+ "C13-r3m2": ("ingester.go one parse context for all records (same idea as C02-r3m1)", "declaration anchored on an ancestor, value differing per record"),
+ "C14-r3m1": ("idr/xmlreader.go: every XML reader shares one package-level namespace table", "two XML transforms alive at once whose inputs declare namespaces"),
+ "C14-r3m2": ("idr/node.go reset() keeps Type/Data/FormatSpecific (same idea as C13-r2m1)", "namespaced XML and a flat format sharing the node pool"),
+ "C15-r3m1": ("javascript.go argument cleanup only when the script succeeds (same idea as C10-r3m1)", "an earlier throwing script with arguments, a later script reading a global it was not given"),
+ "C15-r3m2": ("customfuncs.Merge builds its result in the first argument (the global CommonCustomFuncs)", "a caller's extension overriding a built-in name, then a built-in-extension schema using that name"),
+ "C16-r3m1": ("old csv checkHeader returns any error of the data-row jump as io.EOF", "rows skipped before the first data row and a fault inside them"),
+ "C16-r3m2": ("old fixed-length: cut-line guard moved into the by_rows path only", "by_header_footer envelopes and a fault within the first bytes of a header line"),
+ "C20-r3m1": ("javascript.go node-JSON cache stamp covers direct children only (same idea as C13-r3m1)", "javascript_with_context on the grandparent of the record"),
+ "C20-r3m2": ("ingester.go one parse context for all records (same idea as C02-r3m1)", "javascript (or its arguments) evaluated with a long-lived ancestor as context node across records"),
  "C02-r2m1": ("value.go normalizeAndSaveValue: a declared type makes keep_empty_or_null forget a null result", "a field with both type and keep_empty_or_null whose value is null / absent"),
  "C02-r2m2": ("invokeCustomFunc.go: ignore_error hands back the failed function's return value instead of null", "custom_func with ignore_error whose function fails while returning a non-nil first value, with keep_empty_or_null"),
  "C05-r2m1": ("flatfile hierarchyReader.go: EOF unwind loops recNext before looking at the target", "last target instance closed by end of input AND a later minimum in the same unwind unmet (csv2 / fixedlength2)"),
